@@ -12,30 +12,24 @@ import (
 	"strings"
 )
 
-// PackBytes prints file contents as (length, [50-byte little-endian chunks]) for Stl.unpack.
+// PackBytes prints file contents as (length, [7-byte little-endian chunks as primitive
+// integers]) for Stl.unpack (primitive integer literals parse ~20x faster than N).
 func PackBytes(b []byte) string {
 	var sb strings.Builder
 	fmt.Fprintf(&sb, "(%d%%N, [", len(b))
-	const hexd = "0123456789abcdef"
-	for i := 0; i < len(b); i += 50 {
-		j := i + 50
+	for i := 0; i < len(b); i += 7 {
+		j := i + 7
 		if j > len(b) {
 			j = len(b)
 		}
 		if i > 0 {
-			sb.WriteString("; ")
+			sb.WriteString(";")
 		}
-		// little endian: most significant hex digit is the last byte
-		k := j - 1
-		for k > i && b[k] == 0 {
-			k--
+		var v uint64
+		for k := j - 1; k >= i; k-- {
+			v = v<<8 | uint64(b[k])
 		}
-		sb.WriteString("0x")
-		for ; k >= i; k-- {
-			sb.WriteByte(hexd[b[k]>>4])
-			sb.WriteByte(hexd[b[k]&15])
-		}
-		sb.WriteString("%N")
+		fmt.Fprintf(&sb, "0x%x%%uint63", v)
 	}
 	sb.WriteString("])")
 	return sb.String()
@@ -51,14 +45,25 @@ func CoqString(s string) string {
 			break
 		}
 	}
-	if printable {
+	if printable && len(s) <= 200 {
 		return "\"" + strings.ReplaceAll(s, "\"", "\"\"") + "\"%string"
 	}
-	xs := make([]string, len(s))
-	for i := 0; i < len(s); i++ {
-		xs[i] = strconv.Itoa(int(s[i]))
+	if len(s) > 200 {
+		// long tokens: runs of equal bytes (the generators make long lines by repetition)
+		var rs []string
+		for i := 0; i < len(s); {
+			j := i
+			for j < len(s) && s[j] == s[i] {
+				j++
+			}
+			rs = append(rs, fmt.Sprintf("(%d,%d)", s[i], j-i))
+			i = j
+		}
+		if len(rs) <= 400 {
+			return "(runs [" + strings.Join(rs, ";") + "]%N)"
+		}
 	}
-	return "(bs [" + strings.Join(xs, ";") + "]%N)"
+	return "(bs " + PackBytes([]byte(s)) + ")"
 }
 
 // CFVec / CFTri print float64 triples and triangles as PrimFloat tuples.
